@@ -457,7 +457,7 @@ def near_traces(res, trace_a, trace_b, cfg_a, cfg_b, prop=None):
             raise
 
 
-def validate_trace(res, module, trace, label, prop=None, env_name="TRACE"):
+def validate_trace(res, module, trace, label, prop=None, env_name="TRACE", cfg=None):
     """Code -> spec direction: TLC consumes a trace recorded from the real code; rejection is a violation."""
     out = os.path.join(WORK, res.prop, f"{module}.{label}.out")
     n = sum(1 for _ in open(trace))
@@ -471,7 +471,98 @@ def validate_trace(res, module, trace, label, prop=None, env_name="TRACE"):
     except ToolError:
         txt = open(out, errors="replace").read()
         if "TRACE-REJECTED" in txt:
-            res.mismatches.append({"prop": prop or res.prop, "cfg": label, "ty": "trace", "op": f"{module}: recorded execution rejected by the specification",
-                                   "what": txt[txt.find("TRACE-REJECTED"):][:1200], "case": {"fam": "trace", "module": module, "trace": trace}})
+            case = {"fam": "trace", "module": module, "trace": trace}
+            m = re.search(r'<<"FIRST-REJECTED-EVENT", ("\{.*\}")>>', txt)
+            if m:
+                try:
+                    case = {"fam": "event", "module": module, "event": json.loads(json.loads(m.group(1))), "cfg": cfg or label}
+                except ValueError:
+                    pass
+            ev = case.get("event", {})
+            res.mismatches.append({"prop": prop or res.prop, "cfg": cfg or label, "ty": ev.get("ty", ev.get("sty", "trace")),
+                                   "op": f"{module}: recorded execution rejected by the specification" + (f" ({ev.get('k')}:{ev.get('op')})" if ev else ""),
+                                   "what": txt[txt.find("TRACE-REJECTED"):][:1200], "case": case})
         else:
             raise
+
+
+def record_and_validate(res, mode, cfgs, draws, module="Trace_Lanes", chunks=4, prop=None, expect_kinds=()):
+    """Code -> spec on arbitrary operands: `rec <mode>` executes the real library on random bit patterns in each
+    build configuration and logs every call; TLC (module Trace_Lanes: IeeeW / IntLane with arbitrary-precision
+    integers) consumes the log.  The log of each build is split into `chunks` files validated concurrently."""
+    from concurrent.futures import ThreadPoolExecutor
+    wd = os.path.join(WORK, res.prop)
+    os.makedirs(wd, exist_ok=True)
+    build_all(cfgs, ["rec"])
+    jobs = []
+    for cfg in cfgs:
+        tr = os.path.join(wd, f"rec.{mode}.{cfg}.ndjson")
+        p = run_bin(cfg, "rec", [mode, tr, str(res.seed), str(draws)])
+        if p.returncode != 0:
+            raise ToolError(f"rec {mode} failed in {cfg}: {p.stderr[-1500:]}")
+        summ = json.load(open(tr + ".summary.json"))
+        kinds = {k.split(":")[0] for k in summ["per_op"]}
+        for k in expect_kinds:
+            if k not in kinds:
+                raise ToolError(f"vacuity guard: no '{k}' events recorded by rec {mode} in {cfg}")
+        lines = open(tr).read().splitlines()
+        res.extra.setdefault("recorded_events", {})[f"{mode}:{cfg}"] = len(lines)
+        res.evaluations += len(lines)
+        per = (len(lines) + chunks - 1) // chunks
+        for k in range(chunks):
+            part = lines[k * per:(k + 1) * per]
+            if not part:
+                continue
+            f = os.path.join(wd, f"rec.{mode}.{cfg}.{k}.ndjson")
+            open(f, "w").write("\n".join(part) + "\n")
+            jobs.append((cfg, k, f))
+    sub = []
+
+    def one(job):
+        cfg, k, f = job
+        r = Result(res.prop, res.tier, res.seed)
+        validate_trace(r, module, f, f"{mode}.{cfg}.{k}", prop=prop, cfg=cfg)
+        return r
+    with ThreadPoolExecutor(max_workers=8) as ex:
+        sub = list(ex.map(one, jobs))
+    for r in sub:
+        res.tlc += r.tlc
+        res.states += r.states
+        res.transitions += r.transitions
+        res.behaviours += r.behaviours
+        res.mismatches += r.mismatches
+        for k, v in r.extra.items():
+            if isinstance(v, list):
+                res.extra.setdefault(k, []).extend(v)
+
+
+def replay_event(res, path):
+    """Replay of a rejected trace event: the logged call is executed again on the current tree (same build
+    configuration, same operands, same spelling) and the fresh one-event log is judged by the same specification."""
+    mm = json.load(open(path))
+    case = mm["case"]
+    cfg = case.get("cfg", "sse2")
+    wd = os.path.join(WORK, res.prop)
+    os.makedirs(wd, exist_ok=True)
+    build_all([cfg], ["rec"])
+    evf = os.path.join(wd, "replay.event.json")
+    json.dump(case["event"], open(evf, "w"))
+    tr = os.path.join(wd, f"replay.{cfg}.ndjson")
+    p = run_bin(cfg, "rec", ["replay", tr, evf])
+    if p.returncode != 0 or not os.path.exists(tr) or os.path.getsize(tr) == 0:
+        raise ToolError(f"rec replay produced no event: {p.stdout[-500:]} {p.stderr[-1500:]}")
+    validate_trace(res, case["module"], tr, "replay", cfg=cfg)
+    for m in res.mismatches[:2]:
+        print(m["what"][:1500])
+    if res.mismatches:
+        print(f"VIOLATION property={res.prop} replay={path}")
+        return EXIT_VIOLATION
+    print("replay: the specification accepts the re-executed event on the current tree")
+    return EXIT_OK
+
+
+def replay_dispatch(res, path, binname, only=None, env_keys=("ty",)):
+    fam = json.load(open(path)).get("case", {}).get("fam")
+    if fam == "event":
+        return replay_event(res, path)
+    return generic_replay(res, path, binname, only=only, env_keys=env_keys)
